@@ -80,7 +80,7 @@ def run(rep, tier, seed, replay=None):
         rep.add_broken('build', 'harness', out[-1500:])
         return
     thorough = tier == 'thorough' or bool(changed)
-    n = 20000 if thorough else 1500
+    n = 10000 if thorough else 1500
     if replay:
         rc, out = vh(binp, ['c02', 'one'] + replay['case'])
         cases, impl = parse_cr(out)
